@@ -37,8 +37,9 @@ type vfQ struct {
 	badTap bool // the tap stopped being a sequence of frames
 	abort  bool // wakes WaitFrames
 
-	failWrite   int // index of the Write call that fails (-1 = none)
-	failPartial int // bytes that failing Write accepts
+	failWrite   int   // index of the Write call that fails (-1 = none)
+	failPartial int   // bytes that failing Write accepts
+	failErr     error // what the failing Write (and every later one) returns; nil = errVfWrite
 	wfailed     bool
 
 	readBlocked int // readers currently waiting (for idle detection)
@@ -102,6 +103,9 @@ func (q *vfQ) Write(p []byte) (int, error) {
 		return 0, io.ErrClosedPipe
 	}
 	if q.wfailed {
+		if q.failErr != nil {
+			return 0, q.failErr
+		}
 		return 0, errVfWrite
 	}
 	idx := q.writes
@@ -115,6 +119,9 @@ func (q *vfQ) Write(p []byte) (int, error) {
 			n-- // a Write that reports an error never delivered everything
 		}
 		err = errVfWrite
+		if q.failErr != nil {
+			err = q.failErr
+		}
 		q.wfailed = true
 	}
 	q.tap = append(q.tap, p[:n]...)
